@@ -154,6 +154,16 @@ func main() {
 		return
 	}
 	if *genRef {
+		generatingReference = true
+		if err := genClosureReference(*repo); err != nil {
+			fmt.Fprintln(os.Stderr, err)
+			os.Exit(2)
+		}
+		// struct layouts first: the other tables name fields through them
+		if err := genStructReference(*repo); err != nil {
+			fmt.Fprintln(os.Stderr, err)
+			os.Exit(2)
+		}
 		if err := genSkipReference(*repo); err != nil {
 			fmt.Fprintln(os.Stderr, err)
 			os.Exit(2)
@@ -163,6 +173,22 @@ func main() {
 			os.Exit(2)
 		}
 		if err := genSilentReference(*repo); err != nil {
+			fmt.Fprintln(os.Stderr, err)
+			os.Exit(2)
+		}
+		if err := genLockReference(*repo); err != nil {
+			fmt.Fprintln(os.Stderr, err)
+			os.Exit(2)
+		}
+		if err := genImmutReference(*repo); err != nil {
+			fmt.Fprintln(os.Stderr, err)
+			os.Exit(2)
+		}
+		if err := genOrderReference(*repo); err != nil {
+			fmt.Fprintln(os.Stderr, err)
+			os.Exit(2)
+		}
+		if err := genDropReference(*repo); err != nil {
 			fmt.Fprintln(os.Stderr, err)
 			os.Exit(2)
 		}
